@@ -33,28 +33,46 @@ class FragmentSpreadsMustNotFormCycles(June2018ReleaseValidationRule):
     RULE_LINK = "https://graphql.github.io/graphql-spec/June2018/#sec-Fragment-spreads-must-not-form-cycles"
     RULE_NUMBER = "5.5.2.2"
 
-    def _validate_fragment(self, fragments, fragment, spreaded):
-        for selected in fragment.selection_set.selections:
+    def _collect_spread_names(self, selection_set, spread_names):
+        for selected in selection_set.selections:
             if isinstance(selected, FragmentSpreadNode):
-                if selected.name.value not in spreaded:
-                    spreaded.append(selected.name.value)
+                spread_names.append(selected.name.value)
+            elif getattr(selected, "selection_set", None):
+                self._collect_spread_names(
+                    selected.selection_set, spread_names
+                )
+        return spread_names
 
-                    fragment = find_nodes_by_name(
-                        fragments, selected.name.value
-                    )
-                    if not fragment:
-                        continue  # Handled by another validator
-                    fragment = fragment[0]
+    def _validate_fragment(self, fragments, fragment, spread_path, visited):
+        fragment_name = fragment.name.value
+        if fragment_name in visited:
+            return
 
-                    self._validate_fragment(fragments, fragment, spreaded)
-                else:
-                    raise CycleException(fragments, self._extensions)
-        return
+        # `spread_path` only contains the fragments being currently spread
+        # (from the root fragment to the current one): a fragment spread more
+        # than once, or shared by several fragments, isn't a cycle.
+        spread_path.append(fragment_name)
+        for spread_name in self._collect_spread_names(
+            fragment.selection_set, []
+        ):
+            if spread_name in spread_path:
+                raise CycleException(fragments, self._extensions)
+
+            spread_fragment = find_nodes_by_name(fragments, spread_name)
+            if not spread_fragment:
+                continue  # Handled by another validator
+
+            self._validate_fragment(
+                fragments, spread_fragment[0], spread_path, visited
+            )
+        spread_path.pop()
+        visited.add(fragment_name)
 
     def validate(self, fragments, **_):
+        visited = set()
         for fragment in fragments:
             try:
-                self._validate_fragment(fragments, fragment, [])
+                self._validate_fragment(fragments, fragment, [], visited)
             except CycleException as e:
                 return e.tartiflette_errors
 
